@@ -205,6 +205,24 @@ class Run:
         shutil.rmtree(os.path.join(wd, "md"), ignore_errors=True)
         return res
 
+    def tlaps(self, module, timeout=900):
+        """Check the proofs of spec/<module>.tla with tlapm in a scratch copy; returns the number of obligations proved.
+        A proof that does not go through is a tooling failure of the specification layer, never a verdict about the code."""
+        wd = self.mkdir("tlaps-" + module)
+        for fn in os.listdir(SPEC):
+            if fn.endswith(".tla"):
+                shutil.copy(os.path.join(SPEC, fn), wd)
+        try:
+            p = subprocess.run(["tlapm", "--threads", "16", module + ".tla"], cwd=wd, stdout=subprocess.PIPE, stderr=subprocess.STDOUT, timeout=timeout)
+        except subprocess.TimeoutExpired:
+            die_tooling("tlapm timed out on %s" % module)
+        out = p.stdout.decode("utf-8", "replace")
+        m = re.search(r"All (\d+) obligations? proved", out)
+        if p.returncode != 0 or not m:
+            die_tooling("tlapm did not prove %s:\n%s" % (module, out[-2000:]))
+        shutil.rmtree(wd, ignore_errors=True)
+        return int(m.group(1))
+
     def tlc_simulate_many(self, module, cfg, total, depth, procs=8, timeout=2400, extra_modules=None):
         """total simulated behaviours from `procs` TLC processes run side by side, each single-worker with its own
         seed derived from the run's seed (TLC's simulation workers share one random sequence, so -workers does not help);
